@@ -45,6 +45,12 @@ THEOREMS = [
     "Verif.C01.getitemFull_window_spec",
     "Verif.C01.applyMask_spec",
     "Verif.C01.src_applyMask_table",
+    "Verif.C01.matchBody_iff",
+    "Verif.C01.captures_unique",
+    "Verif.C01.matchFull_iff",
+    "Verif.C01.parseTime_spec",
+    "Verif.C01.digitsToNat_eq",
+    "Verif.C01.tokNs_floor",
 ]
 RULE = (
     "corpus (F1, F6 inputs) + exhaustive small scope (n<=5 samples, dt in {1,2,3,5}, two starts, every window "
@@ -651,6 +657,13 @@ def cases(tier, rng):
     for v in range(0, 1000, 7 if quick else 1):
         yield {"stream": "small-scope", "op": "parse", "s": f"{v // 10}.{v % 10}s", "wellformed": True}
 
+    # every string over a small alphabet of the grammar up to length 4 (5 on thorough): digits, dot, blank, newline,
+    # sign and the letters of m / s / ms / ns -- the matcher against the real regular expression, exhaustively
+    alphabet = "1. \nmsn-"
+    for ln in range(1, 5 if quick else 6):
+        for tup in itertools.product(alphabet, repeat=ln):
+            yield {"stream": "small-scope-strings", "op": "parse", "s": "".join(tup), "wellformed": False}
+
     # ---- random
     N = 1500 if quick else 40000
     r = rng.fork("c01-random")
@@ -855,5 +868,22 @@ def extra_coverage(results):
             shape = last["t"]
         for key in (f"{shape}/{outcome}", f"{c['kind']}{'(empty)' if n_in == 0 else ''}/depth{len(c['items'])}/{last['t']}/{outcome}"):
             branches[key] = branches.get(key, 0) + 1
-    return {"case_kinds": kinds, "error_kinds": errs, "result_sizes": out_sizes, "getitem_branches": branches, "exhaustive": False,
+    parse_branches = {}
+    for r in results:
+        c = r["case"]
+        if c["op"] != "parse":
+            continue
+        a = r["impl"][0]
+        st = c["s"]
+        if a == "RuntimeError":
+            key = "rejected"
+        else:
+            import re
+
+            groups = len(re.findall(r"[0-9.]+[ \t\n\r\x0b\x0c\x1c-\x1f]*[a-z]+", st))
+            key = f"accepted/{groups}-groups" + ("/signed" if st.startswith("-") else "") + ("/decimal" if "." in st else "") + (
+                "/trailing-newline" if st.endswith("\n") else "")
+        parse_branches[key] = parse_branches.get(key, 0) + 1
+    return {"case_kinds": kinds, "error_kinds": errs, "result_sizes": out_sizes, "getitem_branches": branches,
+            "parse_branches": parse_branches, "exhaustive": False,
             "exhaustive_note": "the small-scope stream enumerates its finite space completely; the random streams do not"}
